@@ -105,7 +105,18 @@ DIR_B = {
 }
 
 
+DYN_MODULE = 'zq_dynmod_c15'
+DIR_DYN = {DYN_MODULE + '.py': "static_name = 1\nfor _n in ('alpha', 'beta'):\n    globals()['made_' + _n] = _n\n"}
+DYN_DIR = None      # set by make_dirs: on sys.path of this process and of every server (dyn_modules are imported for real)
+
+
 def make_dirs(root, dirs):
+    global DYN_DIR
+    dirs = dict(dirs, pdyn=DIR_DYN)
+    DYN_DIR = os.path.join(root, 'pdyn')
+    if DYN_DIR not in sys.path:
+        sys.path.insert(0, DYN_DIR)
+    sys.modules.pop(DYN_MODULE, None)
     for name, files in dirs.items():
         d = os.path.join(root, name)
         os.makedirs(d, exist_ok=True)
@@ -116,6 +127,8 @@ def make_dirs(root, dirs):
 
 ASSIST_SOURCES = [
     ('import moda\nmoda.', (2, 5)),
+    ('import %s\n%s.' % (DYN_MODULE, DYN_MODULE), (2, len(DYN_MODULE) + 1)),          # differs with / without dyn_modules
+    ('import %s\n%s.made_' % (DYN_MODULE, DYN_MODULE), (2, len(DYN_MODULE) + 6)),
     ('import moda\nmoda.fu', (2, 7)),
     ('import modb\nmodb.value_b.', (2, 13)),
     ('from moda import Alpha\na = Alpha()\na.me', (3, 4)),
@@ -209,7 +222,7 @@ class Gen(object):
         if c == 0:
             cfg = {'sources': [self.dir_b]}
         elif c == 1:
-            cfg = {'sources': [self.dir_a], 'dyn_modules': ['dynmod']}
+            cfg = {'sources': [self.dir_a], 'dyn_modules': [DYN_MODULE]}
         elif c == 2:
             cfg = {'sources': [self.dir_a, self.dir_b], 'dyn_modules': None, 'extra': (1, 2)}
         else:
@@ -399,7 +412,8 @@ def same(a, b):
 class Remote(object):
     def __init__(self):
         from supp.remote import Environment
-        self.env = Environment(PY, env={'PYTHONPATH': REPO, 'SUPP_LOG_LEVEL': '100', 'PYTHONDONTWRITEBYTECODE': '1'})
+        self.env = Environment(PY, env={'PYTHONPATH': REPO + (os.pathsep + DYN_DIR if DYN_DIR else ''), 'SUPP_LOG_LEVEL': '100',
+                                        'PYTHONDONTWRITEBYTECODE': '1'})
         # the child inherits stdout/stderr at spawn: point them at /dev/null (supp prints diagnostics, crash tests print tracebacks)
         sys.stdout.flush()
         sys.stderr.flush()
@@ -696,6 +710,18 @@ def run(check):
         if len(reals) == len(first) and reals[7][0] == 'ret' and same(reals[7], reals[9]) and same(reals[9], reals[11]):
             check.fail('configure did not replace the project (same completions for two different source trees)',
                        replayable(root, first, True))
+
+        # 0b. configure again with the same roots and other dyn_modules (and back): each configuration is a new project
+        dyn = ASSIST_SOURCES[1] + (gen.fn(),)
+        recfg = []
+        for cfg in ({'sources': [gen.dir_a]}, {'sources': [gen.dir_a], 'dyn_modules': [DYN_MODULE]}, {'sources': [gen.dir_a]},
+                    {'sources': [gen.dir_a], 'dyn_modules': [DYN_MODULE]}, {'sources': [gen.dir_a], 'dyn_modules': None}):
+            recfg += [Req('configure', (cfg,), kind='configure', neutral=False), Req('assist', dyn, kind='assist'),
+                      Req('assist', ASSIST_SOURCES[0] + (gen.fn(),), kind='assist')]
+        reals = runner.run_seq(recfg, fresh=True, label=' (reconfigure, same roots)')
+        if len(reals) == len(recfg) and reals[1][0] == 'ret' and same(reals[1], reals[4]):
+            check.fail('configure with other dyn_modules did not replace the project (same completions with and without run-time '
+                       'introspection of %s)' % DYN_MODULE, replayable(root, recfg, True))
 
         # 1. every catalogued value / raise / unserialisable result once, with a probe after each failure
         cat = [Req('configure', ({'sources': [gen.dir_a]},), kind='configure', neutral=False), Req('eval', (COUNTER_RESET,), kind='eval-counter', neutral=False)]
